@@ -8,6 +8,7 @@ use crate::pool::{Pool, Resp};
 pub mod c07;
 pub mod c08;
 pub mod c10;
+pub mod c15;
 pub mod c19;
 pub mod c20;
 
@@ -16,6 +17,7 @@ pub fn worker(prop: &str, case: &Value) -> Value {
         "C07" => c07::worker(case),
         "C08" => c08::worker(case),
         "C10" => c10::worker(case),
+        "C15" => c15::worker(case),
         "C19" => c19::worker(case),
         "C20" => c20::worker(case),
         _ => json!({"machinery": format!("no worker for {}", prop)}),
@@ -27,6 +29,7 @@ pub fn drive(prop: &str, tier: &str) -> i32 {
         "C07" => c07::drive(tier),
         "C08" => c08::drive(tier),
         "C10" => c10::drive(tier),
+        "C15" => c15::drive(tier),
         "C19" => c19::drive(tier),
         "C20" => c20::drive(tier),
         _ => {
